@@ -36,7 +36,7 @@ def generate(ctx):
               if method == 'cycles' else {'burst_fraction_threshold': float(rng.choice([0.5, 1.0])), 'min_n_cycles': int(rng.choice([1, 3]))})
         bk = {'amp_threshes': [0.5, 1.5]} if (method == 'amp' and rng.random() < 0.5) else None
         cases.append(dict(sig=proto.arr2hex(s['sig']), fs=s['fs'], f_range=list(s['f_range']), fk=fk, boundary=(None if rng.random() < 0.5 else int(rng.choice([0, 5, 30]))),
-                          method=method, th=th, bk=bk, family=s['family'], rs=bool(rng.random() < 0.65), pres=implutil.pick_presentation(rng, 0.3), reuse=bool(rng.random() < 0.25)))
+                          method=method, th=th, bk=bk, family=s['family'], rs=bool(rng.random() < 0.65), pres=implutil.pick_presentation(rng, 0.3), reuse=bool(rng.random() < 0.25), strict=bool(rng.random() < 0.3 or s['family'] in ('zeroed', 'plateau', 'quantised', 'clipped'))))     # (signals with flat stretches: 0/0 flank ratios)
     return cases
 
 _objs = {}
@@ -53,7 +53,8 @@ def _run(c, sig, center):
     if center == 'peak' and c.get('reuse'):                              # the peak-centred run analyses a buffer refilled in place
         return implutil.reuse_buffer(lambda a: implutil.quiet(compute_features, a, c['fs'], tuple(c['f_range']), center_extrema=center, burst_method=c['method'], burst_kwargs=bk,
                                                              threshold_kwargs=th, find_extrema_kwargs=fek, return_samples=c.get('rs', True)), sig)
-    return implutil.twice(lambda: implutil.quiet(compute_features, sig, c['fs'], tuple(c['f_range']), center_extrema=center, burst_method=c['method'], burst_kwargs=bk,
+    run = implutil.strict_env if c.get('strict') else implutil.quiet      # both runs of some cases inside np.seterr(all='raise')
+    return implutil.twice(lambda: run(compute_features, sig, c['fs'], tuple(c['f_range']), center_extrema=center, burst_method=c['method'], burst_kwargs=bk,
                                                  threshold_kwargs=th, find_extrema_kwargs=fek, return_samples=c.get('rs', True)), [sig, bk, th, fek], 'compute_features')
 
 def _shape_rows(df):
@@ -139,6 +140,14 @@ def evaluate(ctx, cases):
                         fail('compute_shape_features on the %s presentation differs from the shape columns of compute_features' % c['pres'])
                 except Exception as e:
                     fail('compute_shape_features raised for the %s presentation although compute_features returned: %s' % (c['pres'], type(e).__name__))
+            if ok and not c.get('rs', True):
+                # the renaming utility itself on a table WITHOUT sample columns: the peak-centred table of -x, renamed, is the trough-centred table
+                from bycycle.utils import rename_extrema_df
+                rn = implutil.quiet(rename_extrema_df, 'trough', p.copy(deep=True), False)
+                for col in SHAPE:
+                    a_, b_ = rn[col].values.astype(float), t[col].values.astype(float)
+                    if not (((a_ == b_) | (np.isnan(a_) & np.isnan(b_)) | (np.abs(a_ - b_) <= 1e-12 * np.maximum(1.0, np.abs(b_)))).all()):
+                        fail('rename_extrema_df(\'trough\', table without sample columns): column %s is not the trough-centred one' % col); break
             if ok and c.get('rs', True):
                 # the one-sided variants used when burst edges are re-evaluated (direction next / last) mirror as well
                 from bycycle.features.burst import compute_amp_consistency, compute_period_consistency
